@@ -32,8 +32,8 @@ try:
 except KeyError:
     RG = ReferenceGenome('C32rg', ['1', 'X'], {'1': 1000, 'X': 500})
 
-STRS = ['', 'a', 'b c', 'nan', '-', 'é\n"']
-ALLELES = [0, 1, 2, 10, 999]     # str()/int() of symbolic integers is intractable for CrossHair: alleles are chosen, not symbolic
+STRS = ['', 'nan', 'é\n"b c']
+ALLELES = [0, 1, 999]     # str()/int() of symbolic integers is intractable for CrossHair: alleles are chosen, not symbolic
 NDARRAYS = {
     'int32': [np.array([], dtype=np.int32), np.array([1, -2, 3], dtype=np.int32),
               np.array([[1, 2, 3], [4, 5, 6]], dtype=np.int32), np.asfortranarray(np.array([[1, 2, 3], [4, 5, 6]], dtype=np.int32)),
@@ -50,8 +50,9 @@ class Pool:
 
     def __init__(self, ints, floats, ks, bools, miss, lens, dict_missing=False):
         self.dict_missing = dict_missing
-        # ints = [i0, i1 (64-bit), j0, j1, j2 (32-bit), p0, p1 (1..500)]
-        self.v = {'i': ints[0:2], 'j': ints[2:5], 'p': ints[5:7], 'f': floats, 'k': ks, 'b': bools, 'm': miss, 'n': lens}
+        # ints = [i0, i1 (64-bit), j0, j1 (32-bit), p0 (1..500)];  ks = [g0, g1 (float kind), s0, s1 (string), c0 (ploidy), a0, a1 (allele)]
+        self.v = {'i': ints[0:2], 'j': ints[2:4], 'p': ints[4:5], 'f': floats, 'g': ks[0:2], 's': ks[2:4], 'c': ks[4:5],
+                  'a': ks[5:7], 'b': bools, 'm': miss, 'n': lens}
         self.c = {k: 0 for k in self.v}
 
     def nx(self, k):
@@ -70,7 +71,7 @@ def mk(t, P, allow_missing=True):
     if t == T.tint64:
         return P.nx('i')
     if t == T.tfloat32 or t == T.tfloat64:
-        k = P.nx('k') % 4
+        k = P.nx('g')
         if k == 1:
             return float('nan')
         if k == 2:
@@ -79,13 +80,13 @@ def mk(t, P, allow_missing=True):
             return float('-inf')
         return P.nx('f')
     if t == T.tstr:
-        return STRS[P.nx('k') % len(STRS)]
+        return STRS[P.nx('s')]
     if t == T.tbool:
         return P.nx('b')
     if t == T.tcall:
-        pl = P.nx('k') % 3
+        pl = P.nx('c')
         ph = P.nx('b')
-        al = [ALLELES[P.nx('k') % len(ALLELES)] for _ in range(pl)]
+        al = [ALLELES[P.nx('a')] for _ in range(pl)]
         return Call(al, phased=ph)
     if isinstance(t, T.tlocus):
         return Locus('X' if P.nx('b') else '1', P.nx('p'), RG)
@@ -105,7 +106,7 @@ def mk(t, P, allow_missing=True):
     if isinstance(t, T.tndarray):
         xs = NDARRAYS[str(t.element_type)]
         xs = [x for x in xs if x.ndim == t.ndim]
-        return xs[P.nx('k') % len(xs)]
+        return xs[(P.nx('g') + 4 * P.nx('s')) % len(xs)]
     raise TypeError(f'harness cannot build values of {t}')
 
 
@@ -152,6 +153,8 @@ def eq(t, a, b):
     """equality of two values of type t with NaN == NaN and missing == missing"""
     if a is None or b is None:
         return a is None and b is None
+    if a is b and not isinstance(a, (list, set, dict, tuple)):
+        return True                 # the very same (well-typed by construction) object came back
     t._typecheck_one_level(b)       # the type's own (one-level, None-safe) check of the value that came back
     if t == T.tfloat32 or t == T.tfloat64:
         return isinstance(b, float) and feq(a, b)
@@ -209,6 +212,25 @@ def roundtrip_ok(t, v):
 def catalogue(tier):
     L = T.tlocus(RG)
     prims = [T.tint32, T.tint64, T.tfloat32, T.tfloat64, T.tstr, T.tbool, T.tcall, L]
+    nd = [T.tndarray(T.tint32, 1), T.tndarray(T.tint32, 2), T.tndarray(T.tint64, 1), T.tndarray(T.tint64, 2),
+          T.tndarray(T.tfloat32, 1), T.tndarray(T.tfloat32, 2), T.tndarray(T.tfloat64, 1), T.tndarray(T.tfloat64, 2),
+          T.tndarray(T.tfloat64, 3)]
+    d2 = [T.tarray(T.tarray(T.tint32)), T.tarray(T.tstruct(a=T.tint32, b=T.tstr)), T.tarray(T.tdict(T.tstr, T.tfloat64)),
+          T.tset(T.ttuple(T.tint32, T.tstr)), T.tdict(T.tstr, T.tarray(T.tint32)), T.tdict(T.tint32, T.tstruct(a=T.tfloat64)),
+          T.tstruct(a=T.tarray(T.tfloat64), b=T.tstruct(c=T.tcall)), T.ttuple(T.tset(T.tstr), T.tinterval(T.tint32)),
+          T.tarray(T.tinterval(L)), T.tdict(T.ttuple(T.tint32, T.tstr), T.tint32), T.tset(T.tarray(T.tint32)),
+          T.tarray(T.tset(T.tint32)), T.tinterval(T.tstruct(a=T.tint32)), T.tstruct(a=T.tdict(T.tstr, T.tint32), b=T.ttuple(T.tbool, T.tfloat32)),
+          T.tarray(T.tndarray(T.tfloat64, 1)), T.tdict(T.tstr, T.tdict(T.tstr, T.tcall))]
+    if tier == 'quick':
+        out = list(prims)
+        out += [T.tarray(p) for p in (T.tint32, T.tfloat64, T.tstr, T.tcall)]
+        out += [T.tset(p) for p in (T.tint64, T.tstr, L)]
+        out += [T.tdict(T.tstr, T.tint32), T.tdict(T.tint32, T.tfloat64), T.tdict(L, T.tcall)]
+        out += [T.tstruct(), T.tstruct(a=T.tfloat64, b=T.tcall), T.ttuple(), T.ttuple(L, T.tbool, T.tstr)]
+        out += [T.tinterval(T.tint32), T.tinterval(L)]
+        out += [nd[1], nd[2], nd[5], nd[8]]
+        out += [d2[1], d2[2], d2[3], d2[6], d2[8], d2[13]]
+        return out
     out = list(prims)
     out += [T.tarray(p) for p in prims]
     out += [T.tset(p) for p in prims]
@@ -217,22 +239,12 @@ def catalogue(tier):
     out += [T.tstruct(), T.tstruct(a=T.tint32, b=T.tstr), T.tstruct(a=T.tfloat64, b=T.tcall), T.tstruct(a=L, b=T.tbool, c=T.tint64)]
     out += [T.ttuple(), T.ttuple(T.tint32, T.tstr), T.ttuple(T.tfloat32, T.tcall), T.ttuple(L, T.tbool)]
     out += [T.tinterval(T.tint32), T.tinterval(T.tfloat64), T.tinterval(T.tstr), T.tinterval(L)]
-    out += [T.tndarray(T.tint32, 1), T.tndarray(T.tint32, 2), T.tndarray(T.tint64, 1), T.tndarray(T.tint64, 2),
-            T.tndarray(T.tfloat32, 1), T.tndarray(T.tfloat32, 2), T.tndarray(T.tfloat64, 1), T.tndarray(T.tfloat64, 2),
-            T.tndarray(T.tfloat64, 3)]
-    d2 = [T.tarray(T.tarray(T.tint32)), T.tarray(T.tstruct(a=T.tint32, b=T.tstr)), T.tarray(T.tdict(T.tstr, T.tfloat64)),
-          T.tset(T.ttuple(T.tint32, T.tstr)), T.tdict(T.tstr, T.tarray(T.tint32)), T.tdict(T.tint32, T.tstruct(a=T.tfloat64)),
-          T.tstruct(a=T.tarray(T.tfloat64), b=T.tstruct(c=T.tcall)), T.ttuple(T.tset(T.tstr), T.tinterval(T.tint32)),
-          T.tarray(T.tinterval(L)), T.tdict(T.ttuple(T.tint32, T.tstr), T.tint32), T.tset(T.tarray(T.tint32)),
-          T.tarray(T.tset(T.tint32)), T.tinterval(T.tstruct(a=T.tint32)), T.tstruct(a=T.tdict(T.tstr, T.tint32), b=T.ttuple(T.tbool, T.tfloat32)),
-          T.tarray(T.tndarray(T.tfloat64, 1)), T.tdict(T.tstr, T.tdict(T.tstr, T.tcall))]
-    out += d2
-    if tier == 'thorough':
-        inner = [T.tarray(T.tfloat64), T.tset(T.tstr), T.tdict(T.tstr, T.tint32), T.tstruct(a=T.tint32, b=T.tcall),
-                 T.ttuple(T.tbool, L), T.tinterval(T.tint32)]
-        for c in inner:
-            out += [T.tarray(c), T.tset(c), T.tdict(T.tstr, c), T.tdict(c, T.tint32), T.tstruct(x=c, y=T.tfloat32),
-                    T.ttuple(c, T.tstr), T.tinterval(c)]
+    out += nd + d2
+    inner = [T.tarray(T.tfloat64), T.tset(T.tstr), T.tdict(T.tstr, T.tint32), T.tstruct(a=T.tint32, b=T.tcall),
+             T.ttuple(T.tbool, L), T.tinterval(T.tint32)]
+    for c in inner:
+        out += [T.tarray(c), T.tset(c), T.tdict(T.tstr, c), T.tdict(c, T.tint32), T.tstruct(x=c, y=T.tfloat32),
+                T.ttuple(c, T.tstr), T.tinterval(c)]
     seen = []
     for t in out:
         if str(t) not in [str(x) for x in seen]:
@@ -240,13 +252,22 @@ def catalogue(tier):
     return seen
 
 
-SIG = ('i0: int, i1: int, j0: int, j1: int, j2: int, p0: int, p1: int, f0: float, f1: float, k0: int, k1: int, k2: int, k3: int, '
-       'b0: bool, b1: bool, b2: bool, m0: bool, m1: bool, m2: bool, m3: bool, m4: bool, n0: int, n1: int, n2: int')
-PRE = '''    pre: -2**63 <= i0 < 2**63 and -2**63 <= i1 < 2**63 and 1 <= p0 <= 500 and 1 <= p1 <= 500
-    pre: -2**31 <= j0 < 2**31 and -2**31 <= j1 < 2**31 and -2**31 <= j2 < 2**31
-    pre: 0 <= k0 < 12 and 0 <= k1 < 12 and 0 <= k2 < 12 and 0 <= k3 < 12
-    pre: 0 <= n0 <= 2 and 0 <= n1 <= 2 and 0 <= n2 <= 2'''
-ARGS = '[i0, i1, j0, j1, j2, p0, p1], [f0, f1], [k0, k1, k2, k3], [b0, b1, b2], [m0, m1, m2, m3, m4], [n0, n1, n2]'
+SIG = ('i0: int, i1: int, j0: int, j1: int, p0: int, f0: float, f1: float, g0: int, g1: int, s0: int, s1: int, c0: int, '
+       'a0: int, a1: int, b0: bool, b1: bool, m0: bool, m1: bool, m2: bool, n0: int, n1: int')
+PRE = '''    pre: -2**63 <= i0 < 2**63 and -2**63 <= i1 < 2**63 and 1 <= p0 <= 500
+    pre: -2**31 <= j0 < 2**31 and -2**31 <= j1 < 2**31
+    pre: 0 <= g0 < 4 and 0 <= g1 < 4 and 0 <= s0 < 3 and 0 <= s1 < 3 and 0 <= c0 < 3 and 0 <= a0 < 3 and 0 <= a1 < 3
+    pre: 0 <= n0 <= 2 and 0 <= n1 <= {N1MAX}'''
+ARGS = '[i0, i1, j0, j1, p0], [f0, f1], [g0, g1, s0, s1, c0, a0, a1], [b0, b1], [m0, m1, m2], [n0, n1]'
+ARGN = ['i0', 'i1', 'j0', 'j1', 'p0', 'f0', 'f1', 'g0', 'g1', 's0', 's1', 'c0', 'a0', 'a1', 'b0', 'b1', 'm0', 'm1', 'm2', 'n0', 'n1']
+
+
+def unpack(a):
+    return ([a['i0'], a['i1'], a['j0'], a['j1'], a['p0']], [a['f0'], a['f1']],
+            [a['g0'], a['g1'], a['s0'], a['s1'], a['c0'], a['a0'], a['a1']], [a['b0'], a['b1']],
+            [a['m0'], a['m1'], a['m2']], [a['n0'], a['n1']])
+
+
 TEMPLATE = '''
 def check_{K}({SIG}) -> bool:
     """
@@ -308,6 +329,7 @@ TYPES = []
 
 
 def source(tier, ks, dict_missing=False):
+    pre = PRE.format(N1MAX=1 if tier == 'quick' else 2)
     return (f'from harness import C32_json as H\nH.TYPES[:] = H.catalogue({tier!r})\n'
             'TYPES = H.TYPES\nroundtrip_ok = H.roundtrip_ok\nvalue = H.value\n'
-            + '\n'.join(TEMPLATE.format(K=k, SIG=SIG, PRE=PRE, ARGS=ARGS, DM=dict_missing) for k in ks))
+            + '\n'.join(TEMPLATE.format(K=k, SIG=SIG, PRE=pre, ARGS=ARGS, DM=dict_missing) for k in ks))
